@@ -115,7 +115,8 @@ def _apply(r, node, kind, p):
         _replace_or_add(r, node, it)
         return dict(kind=kind, object=node, key=p.key, name=p.key.upper(), level="keyword", item=it)
     if kind == "unknown-keyword":
-        key = r.choice(["foobar", "notakeyword", "xyzzy"])
+        # (the last three LOOK like hidden bookkeeping keys but do not match the schemas' ^__[a-z]+__$: ordinary unknown keywords)
+        key = r.choice(["foobar", "notakeyword", "xyzzy", "foobar", "__foo_bar__", "__v2__", "____"])
         if key in vocab.props(node.type):
             return None
         t, v = gen.num_tok(r.randint(1, 9))
